@@ -211,7 +211,7 @@ func qModel(kind string, capN int, ctrlCap int) porcupine.Model {
 				// highest priority, first in among equals
 				bi := 0
 				for k, v := range s.req {
-					if v/1000 > s.req[bi]/1000 {
+					if PriOf(v) > PriOf(s.req[bi]) {
 						bi = k
 					}
 				}
@@ -314,7 +314,7 @@ func drawC12(rt *rapid.T) interface{} {
 			v := next
 			next++
 			if sc.Kind == KPriQ {
-				v += 1000 * rapid.IntRange(0, 2).Draw(rt, "pri")
+				v += 1000 * rapid.SampledFrom([]int{0, 0, 1, 1, 2, 2, 3, 4, 5, 6, 7}).Draw(rt, "pri") // classes 3-7: priorities at the edges of int
 			}
 			ops = append(ops, qOp{Op: op, V: v})
 		}
